@@ -1,7 +1,9 @@
 /-
 `chisq_pvalue` of src/vnacal_new_solve_pvalue.c for an even number of degrees of freedom (the only case
 `_vnacal_new_solve_calc_pvalue` produces: every complex equation contributes two), generic over the scalar type.
-Core-only.
+Core-only.  (Where `exp(-x)` is below the smallest normal double or the sum overflows the C function adds the same terms from their
+logarithms instead: a floating-point fallback with the same mathematical value, not part of this model — over ℝ it never applies;
+the check compares that range with the chi-square survival function.)
 -/
 namespace Libvna.PV
 
